@@ -11,8 +11,54 @@ ASSUMPTIONS = [
 ]
 
 
+def handler_family(rng, i):
+    """handler lists (catch / timeout) of two and more steps: the later steps hang behind the first one, not below the step that owns the
+    list, and the owner still has to wait for them"""
+    def hsteps(prefix):
+        n = rng.range(2, 3)
+        out = []
+        for j in range(n):
+            last = j == n - 1
+            out.append({"id": f"{prefix}{j}", "acts": [{"id": f"{prefix}a{j}", "uses": gen.IRQ if (last or rng.chance(1, 3)) else gen.MSG, "key": f"k{prefix}{j}"}]})
+        return out
+
+    use_timeout = rng.chance(1, 3)
+    if use_timeout:
+        s1 = {"id": "s1", "acts": [{"id": "a1", "uses": gen.IRQ, "key": "ka1"}], "timeout": [{"on": "1s", "steps": hsteps("t")}]}
+        if rng.chance(1, 2):
+            s1["acts"][0]["timeout"] = s1.pop("timeout")
+        w = {"id": "m1", "steps": [s1, {"id": "s2", "acts": [{"id": "a9", "uses": gen.IRQ, "key": "ka9"}]}]}
+        ops = [["deploy", 0], ["start", "m1", {"pid": "p1", "x": 0, "y": 0}], ["runall"], ["tick", 2000], ["runall"]]
+    else:
+        owner_is_step = rng.chance(2, 3)
+        catch = [{"on": rng.pick([None, "e1"]), "steps": hsteps("c")}]
+        if catch[0]["on"] is None:
+            catch[0].pop("on")
+        a1 = {"id": "a1", "uses": gen.IRQ, "key": "ka1"}
+        s1 = {"id": "s1", "branches": [{"id": "b1", "if": "true", "steps": [{"id": "s11", "acts": [a1]}]},
+                                       {"id": "b2", "if": "true", "steps": [{"id": "s12", "acts": [{"id": "a2", "uses": gen.IRQ, "key": "ka2"}]}]}]}
+        if owner_is_step:
+            s1["catches"] = catch
+        else:
+            a1["catches"] = catch
+        w = {"id": "m1", "steps": [s1, {"id": "s2", "acts": [{"id": "a9", "uses": gen.IRQ, "key": "ka9"}]}]}
+        ops = [["deploy", 0], ["start", "m1", {"pid": "p1", "x": 0, "y": 0}], ["runall"],
+               ["act", "error", "p1", {"nid": "a1", "k": 0}, {"ecode": "e1", "message": "boom"}], ["runall"]]
+    # the regular work ends while the handler is still open, then the handler ends
+    for _ in range(rng.range(3, 6)):
+        ops.append(["act", "next", "p1", {"open": rng.below(3)}, {}])
+        ops.append(["runall", rng.pick(["fifo", "lifo"]), rng.below(1 << 30)])
+    for _ in range(5):
+        ops.append(["act", "next", "p1", {"open": 0}, {}])
+        ops.append(["runall"])
+    return {"id": f"c03-h-{i}", "config": {"keep": rng.chance(2, 3), "dump_each": True, "tick_secs": 1}, "models": [w], "ops": ops, "exprs": {"true": ["lit", True]},
+            "features": ["handler-list", "timeout" if use_timeout else "catch"]}
+
+
 def gen_scenario(seed, i):
     rng = Rng(seed * 179424673 + i)
+    if i % 8 == 7:
+        return handler_family(rng, i)
     g = gen.WfGen(rng.fork("wf"), depth=rng.pick([1, 2, 2]), max_steps=3, max_branches=3, max_acts=3, p_if=10, p_branches=60,
                   needs=rng.chance(1, 4), mixed=rng.chance(1, 3), act_kinds=((gen.IRQ, 7), (gen.MSG, 1)), catches=rng.chance(1, 5))
     w = g.workflow("m1")
